@@ -17,6 +17,9 @@
 #include "gen_adapters.hpp"
 #include <amgcl/adapter/crs_tuple.hpp>
 #include <amgcl/adapter/zero_copy.hpp>
+#if defined(__SANITIZE_ADDRESS__)
+#include <sanitizer/lsan_interface.h>
+#endif
 #include <amgcl/adapter/crs_builder.hpp>
 #include <amgcl/adapter/block_matrix.hpp>
 #include <amgcl/adapter/complex.hpp>
@@ -291,6 +294,30 @@ template <class P, class Prm> static void order_oracle(Result &r, const Mat &A, 
     if (!s.threw) for (size_t k = 0; k < s.cols.size(); ++k) if (!veq(s.cols[k], u.cols[k])) { r.fail(name + ": preconditioner built from the row-shuffled matrix differs from the one built from the sorted matrix (apply on unit vector " + std::to_string(k) + ")"); return; }
 }
 
+
+// Life cycle of a NON-OWNING view (adapter::zero_copy / zero_copy_direct): every member operation that replaces the contents of
+// the view (copy assignment, move assignment) must leave the user's arrays alone (neither freed nor overwritten: the caller
+// checks the contents afterwards and frees them itself -- ASan reports a double free) and must not lose the arrays the
+// library allocates instead (LeakSanitizer, queried right after the objects are gone).
+template <class MakeView, class Check>
+static void view_life_cycle(Result &r, MakeView make_view, Check check) {
+    {
+        auto Z2 = make_view();
+        typedef typename std::decay<decltype(*Z2)>::type M;
+        M owned(*Z2);
+        *Z2 = owned;                    // copy assignment INTO the view
+        check(*Z2, "copy-assigned zero_copy view");
+        auto Z3 = make_view();
+        *Z3 = M(*Z2);                   // move assignment INTO the view
+        check(*Z3, "move-assigned zero_copy view");
+        M owned2; owned2 = *Z3;         // copy assignment from it into an empty owning matrix
+        check(owned2, "copy of the assigned view");
+    }
+#if defined(__SANITIZE_ADDRESS__)
+    if (__lsan_do_recoverable_leak_check()) r.fail("arrays allocated by an assignment into a zero_copy view were never freed (leak of owned arrays)");
+#endif
+}
+
 static Result execute(const Toks &t) {
     Cur c(t); const std::string &op = t[0]; Result r;
     if (op == "ad_tuple") {
@@ -324,6 +351,8 @@ static Result execute(const Toks &t) {
                 l << Z->nrows << Z->ncols << Z->nnz << Z->own_data << BAR << *Z << BAR << Y << BAR << (long)(Z->own_data ? 3 : 0);
                 { Crs copy(*Z); if (!copy.own_data) r.fail("copy of a zero_copy matrix must own its data"); check_rows(r, copy, A, "copy of zero_copy"); }
             }   // ~crs(): must not free the user's arrays (ASan would report the double free below)
+            view_life_cycle(r, [&]() { return amgcl::adapter::zero_copy((size_t)A.n, (size_t)A.m, ptr.data(), col.data(), val.data()); },
+                            [&](const auto &M, const char *what) { check_rows(r, M, A, what); });
             if (ptr != A.ptr || col != A.col) r.fail("zero_copy modified the user's index arrays");
             for (size_t j = 0; j < val.size(); ++j) if (val[j].v != A.val[j].v) r.fail("zero_copy modified the user's values");
         } else {
@@ -337,6 +366,8 @@ static Result execute(const Toks &t) {
                 Crs copy(*Z); check_rows(r, copy, A, "zero_copy_direct");
                 l << Z->nrows << Z->ncols << Z->nnz << Z->own_data << BAR << *Z << BAR << Y << BAR << (long)(Z->own_data ? 3 : 0);
             }
+            view_life_cycle(r, [&]() { return amgcl::adapter::zero_copy_direct((size_t)A.n, (size_t)A.m, ptr.data(), col.data(), val.data()); },
+                            [&](const auto &M, const char *what) { Crs cp(M); check_rows(r, cp, A, what); });
             if (ptr != ptr0 || col != col0) r.fail("zero_copy_direct modified the user's index arrays");
             for (size_t j = 0; j < val.size(); ++j) if (val[j].v != A.val[j].v) r.fail("zero_copy_direct modified the user's values");
         }
